@@ -133,6 +133,12 @@ CHECKS = {
   text="Seeded histories of 50 commands (CREATE/DELETE/RENAME/SUBSCRIBE/LIST/LSUB/STATUS/APPEND/SELECT/EXAMINE/STORE/COPY/MOVE/EXPUNGE/UID EXPUNGE/SEARCH/FETCH/NOOP/IDLE/CLOSE) by 1..3 sessions over 2..4 mailboxes; search keys of every kind with NOT/OR/group nesting and RETURN options incl. SAVE/$; sections with part paths, HEADER.FIELDS(.NOT), MIME, TEXT, partials with offsets and sizes up to 2^63-1; LIST patterns with references, multiple patterns, SUBSCRIBED and STATUS return options; every 5th history appends malformed messages (crash probing only); final audit of every mailbox through a fresh connection.",
   design_ref="DESIGN.md §3 C09",
   note="Latitude granted where RFC 3501/9051 leave the outcome open is listed in the evidence assumptions; DELETE of a selected mailbox, RENAME of INBOX or of a mailbox with inferiors and write commands under EXAMINE are not generated."),
+ "C14": dict(
+  category="exploration",
+  technique="Go race detector + Goodlock-style lock-order graph (instance level, gate-lock aware) + per-command watchdog decided on two goroutine dumps, under stress workloads of concurrent sessions with schedule perturbation: seeded yields injected at every lock/unlock site of packages imapserver and imapmemserver by source-level instrumentation generated from the current tree (cmd/lockgen, go build -overlay), GOMAXPROCS varied",
+  text="Runs of 2..8 concurrently running sessions x 20..44 random commands over 2..3 shared mailboxes (COPY/MOVE in both directions, FETCH with literals, STORE, EXPUNGE, APPEND, SEARCH, LIST/LSUB with STATUS, CREATE/DELETE/RENAME/SUBSCRIBE of scratch and shared mailboxes, IDLE with DONE or abrupt disconnect, CLOSE) in profiles mixed / copy-storm / namespace. Decides on the executions produced: every command gets its tagged reply, no lock-order cycle taken by different goroutines without a common gate (reported even if the run did not hang), zero deduplicated race reports with imapserver / imapmemserver frames, no panic in the server log.",
+  design_ref="DESIGN.md §3 C14",
+  note="Sees only the interleavings produced; evidence counts lock acquisitions, order edges, lock instances and distinct fingerprints. A watchdog expiry while server goroutines are still running is recorded as an inconclusive run, not a violation."),
 }
 
 NOT_YET = "check not built yet in this round (planned in DESIGN.md §3; runtime monitoring applies)"
